@@ -218,7 +218,7 @@ def judge_monotone(area, qe, thr, ang):
 
 def kernel_events(tier):
     # (angles below 1 deg are treated as 1 deg by the kernel: the altitude scaling must use the clamped angle too)
-    betas = [math.radians(b) for b in ([0.0, 0.5, 1.0, 5.0, 15.0, 30.0, 42.0] if tier == "quick" else [0.0, 0.3, 0.5, 0.99, 1.0, 3.0, 5.0, 10.0, 15.0, 25.0, 30.0, 42.0])]
+    betas = [math.radians(b) for b in ([0.0, 0.5, 1.0, 5.0, 15.0, 30.0, 42.0, 60.0, 86.0] if tier == "quick" else [0.0, 0.3, 0.5, 0.99, 1.0, 3.0, 5.0, 10.0, 15.0, 25.0, 30.0, 42.0, 60.0, 75.0, 85.9, 86.0])]  # (the wrapper takes ANY emergence angle: steep tracks up to 86 deg included; the law-of-sines distance is singular at 90 deg and already 1.6 % off at 89.9 deg in single precision, so the last degrees are left out)
     alts = [0.0, 2.0, 8.0, 15.0, 20.0] if tier == "quick" else [0.0, 0.5, 2.0, 5.0, 8.0, 11.0, 15.0, 20.0]
     Es = [1e-3, 0.1, 1.0, 50.0] if tier == "quick" else [1e-4, 1e-3, 0.1, 1.0, 50.0, 1e3]
     return list(itertools.product(betas, alts, Es))
@@ -249,7 +249,11 @@ def judge_kernel(evs, heights, results):
             exp = d525 * (d_ref / d_h) ** 2
             # the production kernel evaluates both distances in single precision (float32 beta, radius and orbit
             # height); with the cancellation in the small-angle terms the measured loss is up to 2.2e-5 relative
-            if not (abs(dh - exp) <= 1e-4 * abs(exp) + 1e-300):
+            # beyond the 42 deg the geometry stage ever passes on, the law-of-sines form the kernel uses loses more to
+            # single-precision cancellation (Earth-centre angles of a few 1e-4 rad): measured up to 4.1e-4 at 86 deg;
+            # these steep tracks are in the lattice to catch gross slips (a degree/radian confusion), not rounding
+            tol = 1e-4 if b <= math.radians(42.0) + 1e-12 else 5e-3
+            if not (abs(dh - exp) <= tol * abs(exp) + 1e-300):
                 out.append(("inverse_square_altitude_scaling", (h, b, a, E), exp, dh))
             if not (np.float64(ah).tobytes() == np.float64(a525).tobytes()):
                 out.append(("angle_unchanged_by_altitude", (h, b, a, E), a525, ah))
